@@ -1,4 +1,5 @@
 import MQ.Inv.EpochMain
+import MQ.Inv.WakeMain
 /-!
 # The executable hypothesis checks imply the hypotheses of the theorems
 
@@ -128,5 +129,20 @@ theorem eRetOKb_sound (σ : St) (t T : Nat) (h : eRetOKb σ t T = true)
     rcases h.2 with h2 | h2
     · rw [hc] at h2; cases h2
     · exact h2
+
+theorem wLockOKb_sound (σ : St) (x T : Nat) (h : wLockOKb σ x T = true) (hT : ∀ t, T ≤ t → (σ.th t).pc = .idle) :
+    WLockOK σ x := by
+  unfold wLockOKb at h; unfold WLockOK
+  cases hpc : (σ.th x).pc <;> rw [hpc] at h <;> simp only [] at h ⊢
+  case nb1 k => simpa [Option.isNone_iff_eq_none] using h
+  case wl j seq => simpa [Option.isNone_iff_eq_none] using h
+  case nf lst k =>
+    cases lst <;> simp only [] at h ⊢
+    intro u j seq tg hq
+    rcases Nat.lt_or_ge u T with hl | hl
+    · simp only [List.all_eq_true, List.mem_range] at h
+      have := h u hl
+      rw [hq] at this; simp at this
+    · rw [hT u hl] at hq; cases hq
 
 end MQ
